@@ -187,6 +187,14 @@ func (g *gstate) multisig() {
 	if g.r.Intn(10) == 0 {
 		amount = 600e10 // more than the wallet holds
 	}
+	switch g.r.Intn(6) {
+	case 0:
+		g.conflictingVotes(wi, prop)
+		return
+	case 1:
+		g.hijackWallet()
+		return
+	}
 	voters := g.r.Perm(3)
 	forge := ""
 	switch g.r.Intn(8) {
@@ -414,6 +422,21 @@ func fixedCases() [][]string {
 			g.validMarker(7, rc, "over the lowered total")
 			g.validMarker(6, rc, "replayed-nonce")
 		}),
+		// multisig, adversarial: votes of one proposal id carrying different transfers; a wallet registered over
+		// another account by a stranger and then voted empty
+		scripted("multisig-adversarial", true, false, func(g *gstate) {
+			g.registerWallet(iWallet)
+			g.r = rand.New(rand.NewSource(11))
+			g.conflictingVotes(iWallet, "c1")
+			g.r = rand.New(rand.NewSource(12))
+			g.conflictingVotes(iWallet, "c2")
+			g.r = rand.New(rand.NewSource(14))
+			g.conflictingVotes(iWallet, "c3")
+			for s := int64(21); s < 25; s++ {
+				g.r = rand.New(rand.NewSource(s))
+				g.hijackWallet()
+			}
+		}),
 		// rewards: the approved-minter sites (stakepool.MintRewards / MintServiceCharge) on storagesc and zcnsc
 		scripted("rewards", true, false, func(g *gstate) { rewardsScript(g) }),
 		scripted("rewards-fork", false, true, func(g *gstate) { rewardsScript(g) }),
@@ -495,4 +518,53 @@ func rewardsScript(g *gstate) {
 	}
 	g.emit(call{typ: "sc", sender: iClient0 + 3, to: iZcn, fn: "delete-from-delegate-pool", fee: 1e8, in: spr(0)})
 	g.emit(call{typ: "sc", sender: iClient0 + 4, to: iZcn, fn: "delete-from-delegate-pool", fee: 1e8, in: spr(1), note: "unlock-by-non-owner"})
+}
+
+// conflictingVotes: one signer opens a proposal id with a transfer to ITSELF; the other signers vote for the same
+// proposal id with another recipient / amount, each vote correctly signed over its own transfer. Finally (sometimes)
+// a second signer really co-signs the first transfer, which then is legitimately executed.
+func (g *gstate) conflictingVotes(wi int, prop string) {
+	x := g.x
+	p := g.r.Perm(3)
+	attacker := iSigner0 + p[0]
+	big := uint64(40+g.r.Intn(40)) * 1e10
+	g.emit(call{typ: "sc", sender: attacker, to: iMultisig, fn: "vote", fee: g.fee(), in: voteInput(x.idOf(wi), x.idOf(attacker), big, prop, keys.shares[p[0]], ""), note: "front-runs the proposal id with a transfer to itself"})
+	other := g.client()
+	small := uint64(1+g.r.Intn(9)) * 1e10
+	g.emit(call{typ: "sc", sender: iSigner0 + p[1], to: iMultisig, fn: "vote", fee: g.fee(), in: voteInput(x.idOf(wi), x.idOf(other), small, prop, keys.shares[p[1]], ""), note: "same proposal id, another recipient and amount"})
+	switch g.r.Intn(3) {
+	case 0:
+		g.emit(call{typ: "sc", sender: iSigner0 + p[2], to: iMultisig, fn: "vote", fee: g.fee(), in: voteInput(x.idOf(wi), x.idOf(attacker), big+1e10, prop, keys.shares[p[2]], ""), note: "same proposal id, same recipient, another amount"})
+	case 1:
+		g.emit(call{typ: "sc", sender: iSigner0 + p[2], to: iMultisig, fn: "vote", fee: g.fee(), in: voteInput(x.idOf(wi), x.idOf(attacker), big, prop, keys.shares[p[2]], ""), note: "really co-signs the first transfer"})
+	}
+}
+
+// hijackWallet: a stranger registers a multisig wallet OVER another account (that account's id and public key, the
+// stranger's choice of signers), then the signers vote a transfer out of that account to the stranger.
+func (g *gstate) hijackWallet() {
+	x := g.x
+	stranger := g.rich()
+	victim := g.rich()
+	if g.r.Intn(3) == 0 {
+		victim = iWallet // possibly already a wallet of its own: the registration would REPLACE it
+	}
+	if victim == stranger {
+		return
+	}
+	var ids, pks []string
+	for i := 0; i < 3; i++ {
+		ids = append(ids, keys.shares[i].tid)
+		pks = append(pks, keys.shares[i].pk)
+	}
+	in := j(map[string]interface{}{"client_id": x.idOf(victim), "signature_scheme": "bls0chain", "public_key": ucl[victim].PublicKey,
+		"signer_threshold_ids": ids, "signer_public_keys": pks, "num_required": 2})
+	g.emit(call{typ: "sc", sender: stranger, to: iMultisig, fn: "register", fee: g.fee(), in: in, note: "registered over ANOTHER account by a stranger"})
+	g.proposal++
+	prop := fmt.Sprintf("h%d-%s", g.proposal, g.caseTag)
+	amount := uint64(1+g.r.Intn(30)) * 1e10
+	p := g.r.Perm(3)
+	for k := 0; k < 2; k++ {
+		g.emit(call{typ: "sc", sender: iSigner0 + p[k], to: iMultisig, fn: "vote", fee: g.fee(), in: voteInput(x.idOf(victim), x.idOf(stranger), amount, prop, keys.shares[p[k]], ""), note: "vote on a wallet its account never registered"})
+	}
 }
